@@ -67,6 +67,7 @@ fn exec_maker(n: usize, steps: &[Vec<usize>], draws: usize, threads: usize, obs:
     let mut v = Vec::new();
     let mut digest = 0u64;
     let mut any_fault = false;
+    let mut caught_a_panic = false;
     let mut overlapped = false;
     for (step, faults) in steps.iter().enumerate() {
         let pre: Pop = generation.population().clone();
@@ -87,8 +88,15 @@ fn exec_maker(n: usize, steps: &[Vec<usize>], draws: usize, threads: usize, obs:
                 obs.hit("fault.child-maker-panic-caught");
                 obs.count("steps", maker.take_log().iter().filter(|e| matches!(e, Ev::Enter { .. })).count() as u64);
                 any_fault = true;
+                caught_a_panic = true;
                 previous_words.clear();
                 continue;
+            }
+            Err(_) if caught_a_panic => {
+                // a generation that refuses further service after a panic unwound through it (a poisoned lock, say)
+                // is within its rights: the property says nothing about that, so it is noted and the scenario ends
+                obs.hit("probe.generation-panics-again-after-a-caught-panic");
+                return v;
             }
             Err(p) => {
                 v.push(Violation::new(
